@@ -7,15 +7,15 @@ ALL = ["C%02d" % i for i in range(1, 21)]
 # property -> (technique, level text, level note, design ref)
 CHECKS = {
  "C01": ("exhaustive enumeration of trees x write options x presentations through the real writer, read back by the real strict iterator, against the ground-truth flattening",
-         "Every forest over the macro-derived schema V up to 5 (thorough 6) elements with every known/unknown-size choice and <= 1 (2) deviations among size width 1..8 and payload classes (boundary integers, NaN patterns, 0/127/128-byte strings), deep spines, size-boundary documents (124..128, 16379..16384, thorough 2^21 bytes), raw tags with unknown ids, every Full antichain for small documents, and forests over an 8-deep runtime specification with ids of every byte length: whenever the writer accepts every call the strict read must equal flatten(tree).",
+         "Every forest over the macro-derived schema V up to 5 (thorough 6) elements with every known/unknown-size choice and <= 1 (2) deviations among size width 1..8 and payload classes (boundary integers, NaN patterns, 0/127/128-byte strings), deep spines, size-boundary documents (124..128, 16379..16384, thorough 2^21 bytes), raw tags with unknown ids, every Full antichain for small documents, documents longer than the reader's 64 KiB buffer with 9-16 byte headers at every alignment around the buffer boundary, and forests over an 8-deep runtime specification with ids of every byte length: whenever the writer accepts every call the strict read must equal flatten(tree).",
          "Trusted: flatten(tree). Calls the writer rejects are not judged here. Excluded as inherently ambiguous: a global element directly after an unknown-size master.",
          "DESIGN.md section 4, C01"),
  "C02": ("exhaustive enumeration of reader-accepted streams (writer outputs, reference encodings incl. non-canonical ones, every small byte string, single mutations) re-written through the real writer and re-read",
-         "Every stream that begins at a root element and that the strict iterator reads cleanly, from the writer-output space, RefEncoder outputs with zero-length / padded integers, 4-byte floats, wide size fields and implicitly closed unknown-size masters, every Σ string up to length 5 (6) and single mutations; also with all masters buffered: each emitted item is written back, must be accepted, and the second read must be identical.",
+         "Every stream that begins at a root element and that the strict iterator reads cleanly, from the writer-output space, RefEncoder outputs with zero-length / padded integers, 4-byte floats, wide size fields and implicitly closed unknown-size masters, size-boundary documents (124..128, 16379..16384 bytes), every Σ string up to length 5 (6) and single mutations; also with all masters buffered: each emitted item is written back, must be accepted, and the second read must be identical.",
          "Trusted: normalisation of items (accessor based). 64 KiB reader size limit on mutated inputs.",
          "DESIGN.md section 4, C02"),
  "C05": ("exhaustive enumeration of API call histories (next / try_recover placements, injected source errors, short reads) over small inputs and adversarial header tokens on the real iterator, under catch_unwind and a watchdog",
-         "Every Σ string up to length 5 (6) and every sequence of <= 2 adversarial header tokens under a configuration lattice; every Σ string up to length 3 (4) and every token with try_recover() at every set of <= 2 op positions x injected read errors x short reads: no panic, no hang, linear output, fused after None, each injected error surfaced exactly once, try_recover fails only with EOF/IO.",
+         "Every Σ string up to length 5 (6) and every sequence of <= 2 adversarial header tokens under a configuration lattice; every Σ string up to length 3 (4) and every token with try_recover() at every set of <= 2 op positions x injected read errors x short reads: no panic, no hang, linear output, fused after None, each injected error surfaced exactly once, try_recover fails only with EOF/IO; plus inputs of 60 000 (200 000) adjacent elements per shape, buffered and not (call depth must not grow with the input: a stack overflow aborts the worker and is attributed).",
          "Trusted: the scripted source. Post-error output is unconstrained except for panics.",
          "DESIGN.md section 4, C05"),
  "C08": ("exhaustive enumeration of documents x every subset of present masters as buffered set (and mutations, small byte strings) compared in lock-step with the unbuffered parse (differential oracle)",
@@ -23,11 +23,11 @@ CHECKS = {
          "Trusted: unroll(Full) (10 lines). End-of-stream closing at its default.",
          "DESIGN.md section 4, C08"),
  "C09": ("exhaustive enumeration of trees x options with every Full antichain, the deprecated call, Ends carrying options and every short-write schedule, compared byte-for-byte; output walked by a reference decoder guided by the tree",
-         "Forests up to 4 (5) elements + spines + size-boundary documents with <= 1 (2) option deviations (width 1..8, unknown, payload classes): Start/End presentation vs every Full antichain vs deprecated call vs Ends-with-options vs destinations accepting 1..3 bytes per write / Interrupted (all compositions for outputs <= 10 bytes); reference walk checks ids, payloads, order, size == content length, requested width exact, never the reserved all-ones size.",
+         "Forests up to 4 (5) elements + spines + size-boundary documents with <= 1 (2) option deviations (width 1..8, unknown, payload classes): Start/End presentation vs every Full antichain vs deprecated call vs Ends-with-options vs trailing Ends left to into_inner vs destinations accepting 1..3 bytes per write / Interrupted (all compositions for outputs <= 10 bytes); reference walk checks ids, payloads, order, size == content length, requested width exact, never the reserved all-ones size.",
          "Trusted: RefCodec walk guided by the tree. Default widths unconstrained beyond well-formedness.",
          "DESIGN.md section 4, C09"),
  "C10": ("depth-first exhaustive exploration of writer call sequences on the real TagWriter with a reference model of open chain and accepted tags; destination inspected after every call, into_inner tried in every state",
-         "Every sequence of up to 8 (10) calls over a 17 (20)-call alphabet (known/unknown/width Starts, Ends, leaves, one- and two-level Full, write_raw, flush); rejected calls are not extended. Invariants in every reached state: destination append-only; no growth while a known-size master stays open; complete and readable (strict iterator) whenever none is open; into_inner extends what was handed over and reads as all accepted tags.",
+         "Every sequence of up to 8 (10) calls over a 17 (22)-call alphabet (known/unknown/width Starts, Ends, leaves, one- and two-level Full, write_raw, flush) over a destination that accepts every write whole and, two levels shallower, over destinations that accept 1 resp. 3 bytes per write call; rejected calls are not extended. Invariants in every reached state: destination append-only; no growth while a known-size master stays open; complete and readable (strict iterator) whenever none is open; into_inner extends what was handed over and reads as all accepted tags.",
          "Trusted: the 60-line writer model. Read-back is not compared after an element that never closes an unknown-size master follows such a master's explicit End (inherent ambiguity).",
          "DESIGN.md section 4, C10"),
  "C11": ("explicit exploration of the reference-reachable chain state space of every specification in a bounded family, probing every tag in every state on the real writer and the real strict reader against a recursive reference matcher",
@@ -39,11 +39,11 @@ CHECKS = {
          "Trusted: RefEncoder layout for fault positions. HierarchyError has no position: the id is compared.",
          "DESIGN.md section 4, C13"),
  "C14": ("exhaustive enumeration of documents x every tag boundary x junk runs x capacities with an independently computed precondition and reference expectations",
-         "Every document up to 5 (6) elements (known and unknown-size masters, spines), every tag boundary, every junk string up to length 3 over four never-an-id bytes plus structured runs to length 6 (10), capacities {default,16}: when the following tag still fits its known-size ancestors: prefix unchanged, exactly one error, try_recover Ok, rest equals the undamaged document shifted; always: no panic, no backwards move, failure only as EOF/IO.",
+         "Every document up to 5 (6) elements (known and unknown-size masters, spines), every tag boundary, every junk string up to length 3 over four never-an-id bytes plus structured runs to length 6 (10), capacities {default,16}: when the following tag still fits its known-size ancestors: prefix unchanged, exactly one error, try_recover Ok, rest equals the undamaged document shifted (also with oversized children / hierarchy problems tolerated); always: no panic, no backwards move, failure only as EOF/IO.",
          "Trusted: RefEncoder layout, flatten, the precondition formula of the statement.",
          "DESIGN.md section 4, C14"),
  "C17": ("exhaustive enumeration of header-only streams over a size/width/limit/capacity/context/tolerance lattice, measured with a counting global allocator against a same-stream-with-size-0 baseline",
-         "Every element type in four contexts declaring S in {0,1,M-1,M,M+1,2M,2^20,2^30,2^40,2^56-2} in every VINT width, payload absent / partial / followed by a 200 KB tail, M in {5,16,1000,2^20,default}, capacities {16,4096,default}, 8 tolerance subsets: over-limit => rejected, peak heap growth within 4 KiB of the S=0 baseline, nothing read past the buffer; within limit => growth <= 8*max(S,capacity)+64 KiB; never a panic. Requests above 256 MiB abort the worker and are attributed.",
+         "Every element type in four contexts declaring S in {0,1,M-1,M,M+1,2M,2^20,2^30,2^40,2^56-2} in every VINT width, payload absent / partial / followed by a 200 KB tail, M in {5,16,1000,2^20,default}, capacities {16,4096,default}, 8 tolerance subsets: over-limit => rejected, peak heap growth within 4 KiB of the S=0 baseline, nothing read past the buffer; within limit => growth <= 8*max(S,capacity)+64 KiB; never a panic; long streams of 10-30 thousand small elements of varying size: the largest slice ever offered to read() stays within 4 x max(capacity, largest payload). Requests above 256 MiB abort the worker and are attributed.",
          "Trusted: the counting allocator (requested bytes). Within-limit sizes above 2^20 are not executed.",
          "DESIGN.md section 4, C17"),
  "C18": ("exhaustive enumeration of a bounded declaration space through the real proc-macro (compiled by rustc, generated code compared with the declaration table) and through the macro sources as a library (front-end equality, single-fault rejections)",
@@ -51,23 +51,23 @@ CHECKS = {
          "Trusted: rustc, the generated checker (generic over the traits). Library mode includes the macro sources by path.",
          "DESIGN.md section 4, C18"),
  "C19": ("depth-first exhaustive exploration of valid writer histories x every rejected call x every continuation of <= 2 calls, differential against the history without the rejected call",
-         "Every accepted history up to depth 4 (5) over a 14 (17)-call alphabet, every alphabet or failing-only call (24 shapes covering the six kinds the statement lists plus Full-with-unknown-size and flush) that the writer rejects with a non-I/O error there, every continuation of <= 2 calls then into_inner: same Ok/Err kinds, identical destination after each later call, identical final bytes.",
+         "Every accepted history up to depth 4 (5) over a 14 (17)-call alphabet, every alphabet or failing-only call (24 shapes covering the six kinds the statement lists plus Full-with-unknown-size and flush) that the writer rejects with a non-I/O error there, every continuation of <= 2 calls then into_inner (under catch_unwind): same Ok/Err kinds, identical destination after each later call, identical final bytes.",
          "Trusted: nothing beyond the harness (pure differential). Calls the writer accepts are outside the premise.",
          "DESIGN.md section 4, C19"),
  "C20": ("exhaustive enumeration of async read schedules (all compositions for small inputs, Pending polls) on a single-threaded executor against the blocking iterator, with a defect model narrowing the one known finding",
-         "Documents up to 3 (4) elements, truncations and corruptions x buffered sets x ALL compositions into async reads for inputs up to 10 (13) bytes, Pending deviations, two inputs > 64 KiB; next().await loop (with offsets) and into_stream(): must equal the blocking iterator and end once. Multi-read deviations are accepted only if they equal the one-read-per-call defect model exactly (KNOWN-FINDING D17).",
+         "Documents up to 3 (4) elements, truncations and corruptions x buffered sets x ALL compositions into async reads for inputs up to 10 (13) bytes, Pending deviations, three inputs > 64 KiB (one > 128 KiB with a 200 KB item); next().await loop (with offsets) and into_stream(): must equal the blocking iterator and end once. Multi-read deviations are accepted only if they equal the one-read-per-call defect model exactly (KNOWN-FINDING D17).",
          "Trusted: scripted AsyncRead, futures::executor::block_on. The known finding suppresses only the model-predicted deviation.",
          "DESIGN.md sections 4 and 7, C20"),
  "C03": ("exhaustive enumeration of inputs x configurations on the real iterator; per-item reference decode of the input at the reported offset",
-         "Every byte string over an 18-symbol role-colliding alphabet up to length 5 (thorough 6), every document of a bounded tree x encoding space and every single mutation of it, under 8 tolerance subsets x buffered sets x 2 capacities: each Ok item is compared with an independent RefCodec decode of the input at its reported offset (id, value, End/Full offsets, contiguity), including the children of Full items.",
+         "Every byte string over an 18-symbol role-colliding alphabet up to length 5 (thorough 6), every document of a bounded tree x encoding space and every single mutation of it, under 8 tolerance subsets x buffered sets x 2 capacities, plus > 64 KiB buffer-boundary documents and size-boundary documents: each Ok item is compared with an independent RefCodec decode of the input at its reported offset (id, value, End/Full offsets, contiguity), including the children of Full items.",
          "Trusted: RefCodec header/payload decoders. A 0x00 id byte is mirrored as id 0 when unknown ids are tolerated (documented tolerant behaviour). Payload contents outside the representative classes are assumed data-independent.",
          "DESIGN.md section 4, C03"),
  "C04": ("exhaustive enumeration of read schedules (all 2^(len-1) compositions for small inputs), capacities and EOF-pause subsets against the slice parse (differential oracle)",
-         "For every input up to 11 (thorough 13) bytes from Σ*, the document corpus, its truncations and corruptions: ALL compositions of the input into read() results x 14 capacities (0..len+1, default); longer inputs and two > 64 KiB documents with <= 2 short reads; with end-of-stream closing off, Ok(0) pauses at every subset of tag boundaries. Items, offsets and the first error must equal the slice parse.",
+         "For every input up to 11 (thorough 13) bytes from Σ*, the document corpus, its truncations and corruptions: ALL compositions of the input into read() results x 14 capacities (0..len+1, default); longer inputs with <= 2 short reads and uniform short-read schedules (every read 1..13 bytes), documents with 16-byte headers and all their truncations, three > 64 KiB documents; with end-of-stream closing off, a temporary end of file (persisting until the caller has seen None) at every subset of tag boundaries incl. before the first byte. Items, offsets and the first error must equal the slice parse.",
          "Trusted: the scripted Read implementations (30 lines). Sources that violate the Read contract are out of scope.",
          "DESIGN.md section 4, C04"),
  "C06": ("exhaustive enumeration of byte streams on the strict iterator; replay of the emitted items through an independent nesting/path/extent checker",
-         "Every Σ string up to length 6 (thorough 7), every document of the tree x encoding space (known/unknown-size mixes, five master levels) and every single mutation incl. every mid-document suffix: the Ok items are replayed through NestingChecker (End matching incl. implied ancestors, reference path matcher, extents inside known-size ancestors via RefCodec, known-size End neither early nor late, all closed at clean end).",
+         "Every Σ string up to length 6 (thorough 7), every document of the tree x encoding space (known/unknown-size mixes, five master levels) and every single mutation incl. every mid-document suffix, and > 64 KiB buffer-boundary documents with cuts around the boundary: the Ok items are replayed through NestingChecker (End matching incl. implied ancestors, reference path matcher, extents inside known-size ancestors via RefCodec, known-size End neither early nor late, all closed at clean end).",
          "Trusted: RefSpec table of V, ref_path_match (20 lines), RefCodec. Only specification V (derived by the real macro) is exercised here; other specifications are covered by C11.",
          "DESIGN.md section 4, C06"),
  "C07": ("exhaustive enumeration of trees x all 2^m unknown-size subsets, encoded by a reference encoder and by the real writer, parsed by the real strict iterator against the ground-truth flattening",
